@@ -6,7 +6,7 @@ that produce a comment.
 """
 import ast
 
-from ..minify import MinifierModel, CODE_CLASSES
+from ..minify import MinifierModel
 from ..srcmodel import walk_own
 from . import c01
 
@@ -83,9 +83,9 @@ def rule_header(ctx, res, mm):
     # the code-seen flag
     flag_bad = None
     for (c, s), (_o, ns) in mm.table.items():
-        if c in CODE_CLASSES and not ns[i_seen]:
+        if c in mm.code_classes and not ns[i_seen]:
             flag_bad = (c, 'does not set')
-        if c not in CODE_CLASSES and ns[i_seen] != s[i_seen]:
+        if c not in mm.code_classes and ns[i_seen] != s[i_seen]:
             flag_bad = (c, 'changes')
     res.check(flag_bad is None, 'R-C19-header', where,
               'code-seen flag set by exactly the code classes', '',
